@@ -471,10 +471,10 @@ func c20r1(c *Check) {
 			anchorFail("%s: no opts[...] assignments", fnn)
 		}
 	}
-	checkStringSwitchMatcher(c, c.P.Func("route", "*baseRoute", "update"), "route.baseRoute.update (modRoute)", true)
-	checkStringSwitchMatcher(c, c.P.Func("destination", "*Destination", "Update"), "destination.Destination.Update (modDest)", true)
-	checkUpdateFlag(c, c.P.Func("route", "*baseRoute", "update"), "route.baseRoute.update (modRoute)")
-	checkUpdateFlag(c, c.P.Func("destination", "*Destination", "Update"), "destination.Destination.Update (modDest)")
+	checkStringSwitchMatcher(c, funcCalling(c.P, c.P.Func("route", "*baseRoute", "update"), modPath+"/matcher.New"), "route.baseRoute.update (modRoute)", true)
+	checkStringSwitchMatcher(c, funcCalling(c.P, c.P.Func("destination", "*Destination", "Update"), modPath+"/matcher.New"), "destination.Destination.Update (modDest)", true)
+	checkUpdateFlag(c, funcCalling(c.P, c.P.Func("route", "*baseRoute", "update"), modPath+"/matcher.New"), "route.baseRoute.update (modRoute)")
+	checkUpdateFlag(c, funcCalling(c.P, c.P.Func("destination", "*Destination", "Update"), modPath+"/matcher.New"), "destination.Destination.Update (modDest)")
 	// carbon routes use readRouteOpts too
 	checkRouteOptsOrder(c, c.P.Func("imperatives", "", "readAddRoute"), tok)
 	checkRouteOptsOrder(c, c.P.Func("imperatives", "", "readAddRouteConsistentHashing"), tok)
@@ -704,6 +704,13 @@ func fieldStores(c *Check, fn *ssa.Function, typeName string) map[string][]srcIn
 	sl := newSlicer(c.P, fn)
 	out := map[string][]srcInfo{}
 	allInstrs(fn, func(in ssa.Instruction) {
+		// a field whose address is handed to a helper that stores through it (overrideInt(&cfg.BufSize, v))
+		if fa, ok := in.(*ssa.FieldAddr); ok && strings.HasSuffix(fa.X.Type().String(), "."+typeName) {
+			if ss := sl.pointerArgSources(fa); len(ss) > 0 {
+				out[fieldOfAddr(fa).Name()] = append(out[fieldOfAddr(fa).Name()], ss...)
+			}
+			return
+		}
 		st, ok := in.(*ssa.Store)
 		if !ok {
 			return
@@ -987,17 +994,22 @@ func metaLookups(fn *ssa.Function) map[string]string {
 // checkSubWins: the value passed as `sub` is Substr unless len(Sub) > 0, then Sub.
 func checkSubWins(c *Check, fn *ssa.Function, label string) {
 	var mcall *ssa.Call
+	// the filter may be built by a helper shared between the sections (newMatcher(opts))
+	fn = funcCalling(c.P, fn, modPath+"/matcher.New")
 	allInstrs(fn, func(in ssa.Instruction) {
 		if call, ok := in.(*ssa.Call); ok && calleeName(call.Common()) == modPath+"/matcher.New" {
 			mcall = call
 		}
 	})
+	if mcall == nil {
+		anchorFail("%s: no call to matcher.New", label)
+	}
 	phi, ok := mcall.Call.Args[2].(*ssa.Phi)
 	okW := false
 	if ok && len(phi.Edges) == 2 {
 		for i, e := range phi.Edges {
 			_, names := fieldPath(e)
-			if len(names) > 0 && names[len(names)-1] == "Sub" {
+			if len(names) > 0 && strings.EqualFold(names[len(names)-1], "sub") {
 				// this edge must come from the block guarded by len(Sub) > 0
 				pred := phi.Block().Preds[i]
 				for _, b := range fn.Blocks {
@@ -1011,7 +1023,7 @@ func checkSubWins(c *Check, fn *ssa.Function, label string) {
 					}
 					if call, ok := bo.X.(*ssa.Call); ok {
 						if _, isLen := call.Call.Value.(*ssa.Builtin); isLen {
-							if _, n2 := fieldPath(call.Call.Args[0]); len(n2) > 0 && n2[len(n2)-1] == "Sub" && b.Succs[0] == pred {
+							if _, n2 := fieldPath(call.Call.Args[0]); len(n2) > 0 && strings.EqualFold(n2[len(n2)-1], "sub") && b.Succs[0] == pred {
 								okW = true
 							}
 						}
@@ -1205,6 +1217,24 @@ func c20r4(c *Check) {
 			if s, ok := constString(bo.Y); ok && bo.X == ev.Params[0] {
 				names = append(names, s)
 			}
+		}
+	})
+	// ... or looked up in a package-level table keyed by the variable name
+	allInstrs(ev, func(in ssa.Instruction) {
+		lk, ok := in.(*ssa.Lookup)
+		if !ok || lk.Index != ssa.Value(ev.Params[0]) {
+			return
+		}
+		ld, ok := lk.X.(*ssa.UnOp)
+		if !ok {
+			return
+		}
+		g, ok := ld.X.(*ssa.Global)
+		if !ok {
+			return
+		}
+		if keys, ok := globalMapKeys(c.P, g); ok {
+			names = append(names, keys...)
 		}
 	})
 	sort.Strings(names)
@@ -1452,4 +1482,125 @@ func globalMapLookup(p *Prog, v ssa.Value) ([][2]constant.Value, ssa.Value, bool
 		return nil, nil, false
 	}
 	return ents, lk.Index, true
+}
+
+// globalStructMapLookup: v is a field (path) of m[idx] for a package-level map m that is initialised
+// once, from a literal with constant keys and struct values; returns, per key, the values stored into
+// the struct's fields, the field that v reads, and the index expression.
+func globalStructMapLookup(p *Prog, v ssa.Value) (map[string]map[string]ssa.Value, string, ssa.Value, bool) {
+	root, names := fieldPath(v)
+	if len(names) != 1 {
+		return nil, "", nil, false
+	}
+	if ex, ok := root.(*ssa.Extract); ok && ex.Index == 0 {
+		root = ex.Tuple
+	}
+	lk, ok := root.(*ssa.Lookup)
+	if !ok {
+		return nil, "", nil, false
+	}
+	ld, ok := lk.X.(*ssa.UnOp)
+	if !ok {
+		return nil, "", nil, false
+	}
+	g, ok := ld.X.(*ssa.Global)
+	if !ok {
+		return nil, "", nil, false
+	}
+	out := map[string]map[string]ssa.Value{}
+	okAll, nStores := true, 0
+	for _, fn := range p.Funcs {
+		allInstrs(fn, func(in ssa.Instruction) {
+			switch x := in.(type) {
+			case *ssa.Store:
+				if x.Addr != ssa.Value(g) {
+					return
+				}
+				nStores++
+				mk, ok := x.Val.(*ssa.MakeMap)
+				if !ok || fn.Name() != "init" {
+					okAll = false
+					return
+				}
+				for _, r := range *mk.Referrers() {
+					mu, ok := r.(*ssa.MapUpdate)
+					if !ok {
+						continue
+					}
+					key, ok := constString(mu.Key)
+					if !ok {
+						okAll = false
+						continue
+					}
+					u, ok := mu.Value.(*ssa.UnOp)
+					if !ok {
+						okAll = false
+						continue
+					}
+					al, ok := u.X.(*ssa.Alloc)
+					if !ok {
+						okAll = false
+						continue
+					}
+					fields := map[string]ssa.Value{}
+					for _, ar := range *al.Referrers() {
+						if fa, ok := ar.(*ssa.FieldAddr); ok {
+							for _, fr := range *fa.Referrers() {
+								if st, ok := fr.(*ssa.Store); ok && st.Addr == ssa.Value(fa) {
+									fields[fieldOfAddr(fa).Name()] = st.Val
+								}
+							}
+						}
+					}
+					out[key] = fields
+				}
+			case *ssa.MapUpdate:
+				if u, ok := x.Map.(*ssa.UnOp); ok && u.X == ssa.Value(g) {
+					okAll = false
+				}
+			}
+		})
+	}
+	if !okAll || nStores != 1 || len(out) == 0 {
+		return nil, "", nil, false
+	}
+	return out, names[0], lk.Index, true
+}
+
+// globalMapKeys: the constant string keys of a package-level map that is initialised once from a
+// literal and never written elsewhere.
+func globalMapKeys(p *Prog, g *ssa.Global) ([]string, bool) {
+	var keys []string
+	okAll, nStores := true, 0
+	for _, fn := range p.Funcs {
+		allInstrs(fn, func(in ssa.Instruction) {
+			switch x := in.(type) {
+			case *ssa.Store:
+				if x.Addr != ssa.Value(g) {
+					return
+				}
+				nStores++
+				mk, ok := x.Val.(*ssa.MakeMap)
+				if !ok || fn.Name() != "init" {
+					okAll = false
+					return
+				}
+				for _, r := range *mk.Referrers() {
+					if mu, ok := r.(*ssa.MapUpdate); ok {
+						k, ok := constString(mu.Key)
+						if !ok {
+							okAll = false
+							continue
+						}
+						keys = append(keys, k)
+					}
+				}
+			case *ssa.MapUpdate:
+				if u, ok := x.Map.(*ssa.UnOp); ok && u.X == ssa.Value(g) {
+					okAll = false
+				}
+			}
+		})
+	}
+	return keys, okAll && nStores == 1 && len(keys) > 0
 }
